@@ -11,7 +11,8 @@
     Python's iteration order [set_order] of the set of persons still to allocate.  Every
     theorem holds for all of them. *)
 From Coq Require Import ZArith QArith List Bool String Permutation Sorted.
-From Verif Require Import Base Cal Tables Period Builder BuilderSpec BuilderProofs.
+From Verif Require Import Base Cal Tables Period Builder BuilderSpec BuilderProofs BuilderGroupProofs
+  BuilderValueProofs.
 Import ListNotations.
 Open Scope Z_scope.
 Open Scope string_scope.
@@ -101,16 +102,21 @@ Definition ill_formed_rejected_statement : Prop :=
     ill_formed x s doc ->
     build_from_entities x s doc = Err ESituation \/ build_from_entities x s doc = Err EUnmodelled.
 (* Proved below: the class "unknown entity" in full ([unknown_entity_rejected]); for the other
-   classes the rejection of the FIRST ill-formed item the builder meets, i.e. under the
-   hypothesis that what was read before it was accepted ([person_declaration_rejected] with
-   the lemmas [..._refused] / [..._value] for unknown variable, text for a number, unknown
-   enum name, impossible date, unparsable period; [group_instance_rejected] with
-   [unknown_person_...], [duplicate_...], [too_many_...]; [mismatched_period_rejected]).
+   classes the rejection of the FIRST ill-formed item that the builder meets, at document level,
+   i.e. under the hypothesis that what was read before it was accepted:
+   [person_declaration_rejected] (with [unknown_variable_refused], [other_entity_variable_refused],
+   [refused_entry_in_field] + [unparsable_period_refused] / [bad_value_refused] +
+   [text_for_number_value] / [unknown_enum_value] / [impossible_date_value]) for the declarations
+   of persons; [group_declaration_rejected] (with [unknown_person_rejected],
+   [duplicate_membership_rejected], [too_many_role_holders_rejected]) for the role lists of
+   groups; [mismatched_period_rejected] for the flush.
    Missing for [ill_formed_rejected_statement]: the induction over the position of the item
    showing that whatever is read before it either is accepted or already fails with
    ESituation / EUnmodelled (this needs the invariant that buffered arrays have the length of
-   their entity, to exclude the model's IndexError case), and the same lemmas threaded through
-   [add_groups] for declarations inside groups. *)
+   their entity, to exclude the model's IndexError case), the lemmas of
+   [person_declaration_rejected] threaded through [add_group_instances] for the variables
+   declared inside groups, and [mismatched_period_rejected] threaded through the flush of the
+   populations before the one that holds the variable. *)
 
 Theorem unknown_entity_rejected : forall x s doc k,
   In k (map fst doc) -> k <> "axes" -> ~ In k (plurals s) -> ~ In k (singulars s) ->
@@ -227,6 +233,30 @@ Theorem group_instance_rejected : forall x s e pids eids gid fields rest st todo
 Proof. exact BuilderProofs.group_instance_rejected. Qed.
 Print Assumptions group_instance_rejected.
 
+(** document level: the first refused group ([gpre]: the group kinds read before, [ipre]: the
+    groups of this kind read before, all accepted) makes the build fail with the situation error *)
+Theorem group_declaration_rejected :
+  forall x s doc i persons st1 gpre e gpost instances ipre gid fields ipost sta stb todo mr,
+  existsb (fun kv : string * json => negb (mem_str (fst kv) (plurals s))) (aremove "axes" doc) = false ->
+  aget (e_plural (s_person s)) (aremove "axes" doc) = Some (JObj (i :: persons)) ->
+  add_person_entity x s b_empty (i :: persons) = Ok st1 ->
+  s_groups s = gpre ++ e :: gpost ->
+  add_groups x s st1 (get_ids st1 (e_plural (s_person s))) (aremove "axes" doc)
+    (match aget "axes" doc with Some JNull | None => false | Some _ => true end) gpre = Ok sta ->
+  aget (e_plural e) (aremove "axes" doc) = Some (JObj instances) ->
+  instances = ipre ++ (gid, JObj fields) :: ipost ->
+  add_group_instances x s e (get_ids st1 (e_plural (s_person s))) (map fst instances) ipre
+    (set_ids sta (e_plural e) (map fst instances)) (get_ids st1 (e_plural (s_person s)))
+    (repeat 0 (List.length (get_ids st1 (e_plural (s_person s)))),
+     repeat EmptyString (List.length (get_ids st1 (e_plural (s_person s))))) = Ok (stb, todo, mr) ->
+  (allocate_roles (get_ids st1 (e_plural (s_person s))) todo (roles_json e fields) = Err ESituation
+   \/ (exists todo', allocate_roles (get_ids st1 (e_plural (s_person s))) todo (roles_json e fields) = Ok todo'
+       /\ forall gi, assign_roles (get_ids st1 (e_plural (s_person s))) gi (roles_json e fields) mr
+                     = Err ESituation)) ->
+  build_from_entities x s doc = Err ESituation.
+Proof. exact BuilderGroupProofs.group_declaration_rejected. Qed.
+Print Assumptions group_declaration_rejected.
+
 (** a period that does not match the variable's definition period (no set-input rule), or the
     eternity for a dated variable, is a PeriodMismatchError of the holder, and the flush turns
     it into the situation error *)
@@ -286,16 +316,16 @@ Definition build_spec_statement : Prop :=
        canon_key (tok x t) = Ok p -> last_for x dated t p -> check_set_value x v value = Ok c ->
        index_of id (map fst l) = Some idx -> pop_of sim e pop ->
        stored pop vn (storage_key v p) idx c).
-(* Proved: the persons clause at document level ([build_persons_ids]); for the other clauses
-   the step of the builder that establishes them: [add_group_entity_ids] (ids = declared ++
-   set_order of the persons left out), [assign_members_spec] (group index and (sub-)role by
-   rank, nobody else touched), [allocate_own_spec] (fresh distinct group, first role),
-   [pad_array_spec] (the added groups hold the default, the declared ones keep their values),
-   [add_variable_value_spec] (the converted value is placed under the canonical key at the
-   instance's index, nothing else changes).  Missing: the frame lemmas that carry these facts
-   through the later steps (other instances, other entities, the flush: each buffered array is
-   stored under its own key because the buffer keys are pairwise distinct) up to the final
-   [simulation]. *)
+(* Proved at document level: the persons clause ([build_spec_partial], first part), the whole
+   groups clause except "the new groups hold defaults" ([build_spec_groups]: ids = declared ++
+   one per person left out, every declared member recorded with its group and (sub-)role by
+   rank, every person left out alone in a new group with the first role), and the values
+   clause for the declarations of PERSONS ([build_spec_person_values]).  Proved for the steps
+   of the builder only: the values declared in GROUP instances ([add_variable_value_spec] in
+   [build_spec_partial], [pad_array_spec] in [own_groups]: the groups added later hold the
+   default and the declared ones keep their values).  Missing for [build_spec_statement]: the
+   same frame argument as for persons threaded through [add_group_instances] / [pad_buffer]
+   for the values of groups, and eternal variables given several keys (the last flushed wins). *)
 
 Theorem build_spec_partial :
   (* persons of the built simulation *)
@@ -333,6 +363,58 @@ Theorem build_spec_partial :
        b_ax_ids st' = b_ax_ids st).
 Proof. exact build_spec_partial_full. Qed.
 Print Assumptions build_spec_partial.
+
+(** document level, groups: for every document without axes that builds and every group kind
+    with declared instances *)
+Theorem build_spec_groups : forall x s doc sim persons e instances,
+  NoDup (plurals s) ->
+  (forall l, Permutation (set_order x l) l) ->
+  aget "axes" doc = None ->
+  aget (e_plural (s_person s)) (aremove "axes" doc) = Some (JObj persons) ->
+  NoDup (map fst persons) ->
+  In e (s_groups s) ->
+  aget (e_plural e) (aremove "axes" doc) = Some (JObj instances) ->
+  build_from_entities x s doc = Ok sim ->
+  exists pop own,
+    In pop sim /\ p_entity pop = e_key e /\
+    p_ids pop = map fst instances ++ own /\
+    NoDup own /\
+    (forall pid, In pid own <-> In pid (map fst persons) /\ ~ declared_in e instances pid) /\
+    List.length (p_members pop) = List.length persons /\
+    List.length (p_mroles pop) = List.length persons /\
+    (forall gid fields r j pid k gi,
+       In (gid, JObj fields) instances -> In r (e_roles e) ->
+       nth_error (role_members r fields) j = Some pid ->
+       index_of pid (map fst persons) = Some k -> index_of gid (map fst instances) = Some gi ->
+       nth_error (p_members pop) k = Some (Z.of_nat gi)
+       /\ nth_error (p_mroles pop) k = Some (role_at r j)) /\
+    (forall j pid k, nth_error own j = Some pid -> index_of pid (map fst persons) = Some k ->
+       nth_error (p_members pop) k = Some (Z.of_nat (List.length instances + j))
+       /\ nth_error (p_mroles pop) k = Some (first_role e)
+       /\ nth_error (p_ids pop) (List.length instances + j) = Some pid).
+Proof. exact build_groups_spec. Qed.
+Print Assumptions build_spec_groups.
+
+(** document level, values of persons: the value declared under the key text [t] (the last key
+    of that declaration denoting this period) for a variable without set-input rule is stored
+    at the canonical period of the key, at the person's index, converted by [check_set_value] *)
+Theorem build_spec_person_values :
+  forall x s doc sim persons ppre pid fields ppost pre vn dated post dpre t value dpost v p c idx,
+  NoDup (singulars s) -> ~ In (e_plural (s_person s)) (map e_plural (s_groups s)) ->
+  aget "axes" doc = None ->
+  aget (e_plural (s_person s)) (aremove "axes" doc) = Some (JObj persons) ->
+  persons = ppre ++ (pid, JObj fields) :: ppost -> NoDup (map fst persons) ->
+  fields = pre ++ (vn, JObj dated) :: post -> NoDup (map fst fields) ->
+  dated = dpre ++ (t, value) :: dpost ->
+  (forall t' value', In (t', value') dpost -> value' <> JNull -> canon_key (tok x t') <> Ok p) ->
+  value <> JNull -> find_var vn (s_vars s) = Some v ->
+  v_rule v = RNone -> eternal v = false -> v_end v = None ->
+  canon_key (tok x t) = Ok p -> check_set_value x v value = Ok c ->
+  index_of pid (map fst persons) = Some idx ->
+  build_from_entities x s doc = Ok sim ->
+  exists pop rest, sim = pop :: rest /\ p_entity pop = e_key (s_person s) /\ stored pop vn p idx c.
+Proof. exact build_person_value_stored. Qed.
+Print Assumptions build_spec_person_values.
 
 (** members of a role list: group index and (sub-)role by rank; the others untouched *)
 Theorem declared_members_assigned : forall pids r gidx l i mr,
@@ -502,3 +584,26 @@ Example axes_nonvacuous :
   | _ => False
   end.
 Proof. vm_compute. repeat split. Qed.
+
+(* the premises of the document-level theorems hold for this document *)
+Example build_spec_premises_nonvacuous :
+  NoDup (plurals sys0) /\ NoDup (singulars sys0)
+  /\ ~ In (e_plural (s_person sys0)) (map e_plural (s_groups sys0))
+  /\ (forall l, Permutation (set_order ext0 l) l)
+  /\ aget "axes" doc0 = None
+  /\ aget (e_plural (s_person sys0)) (aremove "axes" doc0) = Some persons0
+  /\ (exists sim, build_from_entities ext0 sys0 doc0 = Ok sim)
+  /\ canon_key (tok ext0 "month:2018-01") = Ok (Month, (2018, 1, 1), 1)
+  /\ canon_key (tok ext0 "2018-01") = Ok (Month, (2018, 1, 1), 1)
+  /\ (exists v, find_var "salary" (s_vars sys0) = Some v /\ v_rule v = RNone /\ eternal v = false
+                /\ v_end v = None /\ check_set_value ext0 v (JInt 100) = Ok (CInt 100)).
+Proof.
+  split; [repeat constructor; cbn; intuition discriminate|].
+  split; [repeat constructor; cbn; intuition discriminate|].
+  split; [cbn; intuition discriminate|].
+  split; [intros l; cbn; symmetry; apply Permutation_rev|].
+  split; [reflexivity|]. split; [reflexivity|].
+  split; [eexists; vm_compute; reflexivity|].
+  split; [reflexivity|]. split; [reflexivity|].
+  eexists. repeat split; reflexivity.
+Qed.
